@@ -295,6 +295,32 @@ class C33Engine(Engine):
         res["states"].append(log.digest())
         return res
 
+    _allowed = {}
+
+    def allowed_keys(self, command):
+        a = self._allowed.get(command)
+        if a is None:
+            import inspect
+
+            M = _setup()
+            tsdate = M["tsdate"]
+            core = tsdate.core
+            fns = []
+            if command == "preprocess_ts":
+                import tskit
+
+                fns = [tsdate.preprocess_ts, tskit.TableCollection.simplify]
+            else:
+                fns = [tsdate.date, getattr(tsdate, command), core.EstimationMethod.__init__]
+                for cls in vars(core).values():
+                    if isinstance(cls, type) and getattr(cls, "name", None) == command and hasattr(cls, "run"):
+                        fns += [cls.run, cls.__init__]
+            a = {"command"}
+            for f in fns:
+                a |= {n for n in inspect.signature(f).parameters if n not in ("self", "kwargs", "args")}
+            self._allowed[command] = a
+        return a
+
     def judge(self, tskit, before, after, recording, command, passed, reads, stats, site, n_recorded):
         if not recording:
             if after != before:
@@ -320,6 +346,14 @@ class C33Engine(Engine):
         if par.get("command") != command:
             return violation("wrong-command", site,
                              f"record names command {par.get('command')!r} but {command!r} was run")
+        # "the parameters used": nothing that is not a parameter of the code that ran.  The allowed names are read from
+        # the signatures of the functions involved (so a parameter the maintainers start recording is never foreign);
+        # what this catches is state leaking from EARLIER calls into the record (a chain effect).
+        foreign = sorted(set(par) - self.allowed_keys(command))
+        if foreign:
+            return violation("foreign-parameter", site,
+                             f"{command}: the record carries parameters that are not parameters of {command}: "
+                             f"{ {k: par[k] for k in foreign} } (left over from earlier calls in this process?)")
         for k, val in passed.items():
             if k not in par:
                 return violation("parameter-missing", site + ":" + k,
@@ -617,7 +651,7 @@ class C34Engine(Engine):
             kw["population_size"] = ne
             flags.append("opt_population_size")
         if tape.chance("threads", 0.3 if discrete else 0.08):
-            t = tape.pick("t", [1, 2])
+            t = tape.pick("t", [1, 2, 0])
             argv += [tape.pick("t_flag", ["-t", "--num-threads"]), str(t)]
             kw["num_threads"] = t
             flags.append("opt_num_threads")
@@ -627,12 +661,12 @@ class C34Engine(Engine):
             kw["probability_space"] = sp
             flags.append("opt_probability_space")
         if tape.chance("eps", 0.3 if discrete else 0.1):
-            e = tape.pick("eps_v", [1e-6, 1e-10])
+            e = tape.pick("eps_v", [1e-6, 1e-10, 0.0])
             argv += [tape.pick("e_flag", ["-e", "--epsilon"]), repr(e)]
             kw["eps"] = e
             flags.append("opt_epsilon")
         if tape.chance("iters", 0.5 if not discrete else 0.08):
-            it = 1 + tape.choose("it", 4)
+            it = tape.pick("it", [1, 2, 3, 4, 0])  # 0: the API rejects it, so must the CLI
             argv += ["--max-iterations", str(it)]
             kw["max_iterations"] = it
             flags.append("opt_max_iterations")
